@@ -2010,13 +2010,21 @@ def writer_elements(ctx, fx, T):
                     else:
                         break
         covered = set()
+        def _lits_of(o, depth=0):
+            """string literals an operand can stand for: the literal itself, or the arms of `c ? "a" : "b"`"""
+            while o is not None and o.get("k") in _CASTS and o.get("c"):
+                o = o["c"][0]
+            if o is None or depth > 4:
+                return []
+            if o.get("k") == "StringLiteral":
+                return [o]
+            if o.get("k") == "ConditionalOperator" and len(o.get("c") or []) == 3:
+                return _lits_of(o["c"][1], depth + 1) + _lits_of(o["c"][2], depth + 1)
+            if o.get("k") == "ParenExpr" and o.get("c"):
+                return _lits_of(o["c"][0], depth + 1)
+            return []
         for ops in chains:
-            for i, o in enumerate(ops):
-                lit = o
-                while lit is not None and lit.get("k") in _CASTS and lit.get("c"):
-                    lit = lit["c"][0]
-                if lit is None or lit.get("k") != "StringLiteral":
-                    continue
+            for i, lit in [(i_, l_) for i_, o_ in enumerate(ops) for l_ in _lits_of(o_)]:
                 covered.add(lit["id"])
                 text = lit.get("v") or ""
                 if re.match(r"\s*/>", text):
